@@ -987,7 +987,13 @@ caption_command(vbi_decoder *vbi, struct caption *cc,
 		ch->attr.opacity = (c2 & 1) ? VBI_SEMI_TRANSPARENT : VBI_OPAQUE;
 		ch->attr.background = palette_mapping[(c2 >> 1) & 7];
 
-		/* This is a set-at spacing attribute. */
+		/* This is a set-at spacing attribute. It replaces the
+		   space transmitted before it for older decoders. */
+		if (ch->col > 1 && ch->col < COLUMNS - 1) {
+			if (--ch->col < ch->col1)
+				ch->col1 = ch->col;
+		}
+
 		put_char_space(cc, ch);
 
 		return;
